@@ -89,7 +89,7 @@ STREAMS = {
 PHASES = {
     "C02": ["events_pre", "overprod", "production", "distribute", "events_post", "orders"],
     "C19": ["events_pre", "overprod", "events_post"],
-    "C09": ["events_post"],
+    "C09": ["events_pre", "events_post"],
     "C10": ["events_pre", "events_post"],
     "C11": ["events_pre", "distribute", "events_post"],
     "C20": ["events_pre", "production", "distribute", "orders"],
